@@ -126,14 +126,14 @@ pub fn dispatch() -> Option<i32> {
                 let pid = sc.id();
                 let level = sc.level();
                 let rule = sc.rule();
-                let hang_limit: u64 = arg(&args, "--hang-limit").and_then(|s| s.parse().ok()).unwrap_or(150);
+                let hang_limit: u64 = arg(&args, "--hang-limit").and_then(|s| s.parse().ok()).unwrap_or(runner::HANG_CPU_S);
                 std::thread::spawn(move || loop {
                     std::thread::sleep(std::time::Duration::from_millis(1000));
-                    if let Some((idx, age)) = progress.stuck(hang_limit) {
+                    if let Some((idx, age, wall)) = progress.stuck(hang_limit, runner::HANG_WALL_S) {
                         let s = runner::run_seed(seed, pid, idx);
                         let path = format!("{}/{}-run-does-not-terminate-{:016x}.json", replay_dir, pid, s);
                         let tier_s = if tier == Tier::Quick { "quick" } else { "thorough" };
-                        let msg = format!("run {} (seed {}) has been executing for {} s of wall-clock time inside one simulated run: a node step does not return", idx, s, age);
+                        let msg = format!("run {} (seed {}) has consumed {} s of CPU time ({} s of wall-clock time) inside one simulated run: a node step does not return", idx, s, age, wall);
                         let doc = J::obj()
                             .with("property", J::s(pid))
                             .with("tier", J::s(tier_s))
@@ -165,7 +165,9 @@ pub fn dispatch() -> Option<i32> {
                     }
                 });
             }
+            let progress2 = progress.clone();
             let res = runner::run_batch_with(sc, tier, seed, runs, cap, workers, false, progress);
+            let longest_run_cpu_ms = progress2.longest_run_cpu_ms.load(std::sync::atomic::Ordering::Relaxed);
             // determinism spot check inside every batch: re-run a sample of runs in this process and compare hashes
             let mut det_checked = 0;
             let mut det_mismatch = 0;
@@ -239,6 +241,8 @@ pub fn dispatch() -> Option<i32> {
                 .with("run_phase_wall_s", J::Float(res.wall_s))
                 .with("stopped_by_wall_clock_cap", J::Bool(res.capped))
                 .with("workers", J::i(workers as i64))
+                .with("longest_run_cpu_ms", J::i(longest_run_cpu_ms as i64))
+                .with("hang_limit_cpu_s", J::i(runner::HANG_CPU_S as i64))
                 .with("faults_fired", runner::counters_json(&faults))
                 .with("probe_counters", runner::counters_json(&probes))
                 .with("real_code_activity", runner::counters_json(&activity))
@@ -265,23 +269,33 @@ pub fn dispatch() -> Option<i32> {
             let file = arg(&args, "--file").unwrap_or("").to_string();
             // a replayed run that does not terminate reproduces a hang violation
             let (tx, rx) = std::sync::mpsc::channel();
+            let clock = std::sync::Arc::new(std::sync::atomic::AtomicI64::new(-1));
             {
                 let file = file.clone();
+                let clock = clock.clone();
                 std::thread::Builder::new()
                     .stack_size(64 << 20)
                     .spawn(move || {
+                        clock.store(runner::thread_cpu_clock(), std::sync::atomic::Ordering::Relaxed);
                         let r = runner::replay_file(sc, &file);
                         let _ = tx.send(r.map(|o| (o.violation, o.diverged, o.render)));
                     })
                     .unwrap();
             }
-            let limit: u64 = arg(&args, "--hang-limit").and_then(|s| s.parse().ok()).unwrap_or(150);
-            let got = match rx.recv_timeout(std::time::Duration::from_secs(limit)) {
-                Ok(r) => r.map(|(violation, diverged, render)| runner::ReplayOutcome { violation, diverged, render }),
-                Err(_) => {
-                    println!("VIOLATION property={} replay={}", sc.id(), file);
-                    eprintln!("  oracle=no-hang signature=run-does-not-terminate: the replayed run did not terminate within {} s", limit);
-                    return Some(1);
+            let limit: u64 = arg(&args, "--hang-limit").and_then(|s| s.parse().ok()).unwrap_or(runner::HANG_CPU_S);
+            let started = std::time::Instant::now();
+            let got = loop {
+                match rx.recv_timeout(std::time::Duration::from_secs(1)) {
+                    Ok(r) => break r.map(|(violation, diverged, render)| runner::ReplayOutcome { violation, diverged, render }),
+                    Err(std::sync::mpsc::RecvTimeoutError::Timeout) => {
+                        let cpu = runner::cpu_ms_of(clock.load(std::sync::atomic::Ordering::Relaxed)).unwrap_or(0) / 1000;
+                        if cpu >= limit || started.elapsed().as_secs() >= runner::HANG_WALL_S {
+                            println!("VIOLATION property={} replay={}", sc.id(), file);
+                            eprintln!("  oracle=no-hang signature=run-does-not-terminate: the replayed run did not terminate within {} s of CPU time", limit);
+                            return Some(1);
+                        }
+                    }
+                    Err(_) => break Err("replay thread ended without a result".to_string()),
                 }
             };
             let file = file.as_str();
